@@ -108,7 +108,7 @@ theorem C12_quote_strconv_counterexample :
   have e : goQuote (utf8Encode [7]) ++ [] = [34, 92, 97, 34] := by
     simp [goQuote, utf8Encode, encodeRune, goQuoteBody, escapedRune, isPrintDefault, inRange, runeError]
   rw [e] at h1
-  simp [readToken, readTokenBody, Gql.Lexer.punct_quote, ws, isNameStart, isDigit, readStringLoop.eq_def, mkErr] at h1
+  simp [readToken, readTokenBody, Gql.Lexer.punct_quote, ws, isNameStart, isDigit, readStringLoop.eq_def, mkErr, escapeOut] at h1
 
 /-- The UTF-8 hypothesis of `C12_quote_roundtrip_gql` cannot be dropped: after an escape the lexer
     re-encodes what it decodes, so an ill-formed byte comes back as U+FFFD. -/
@@ -118,7 +118,7 @@ theorem C12_quote_illformed_counterexample :
         t.value = acc.reverse ++ bs) := by
   intro h
   obtain ⟨t, c', h1, h2⟩ := h [10, 255] [] Cur.init Cur.init [] false
-  simp [gqlQuoteBody, gqlEscapeByte, readStringLoop.eq_def, decodeRune, encodeRune, runeError] at h1
+  simp [gqlQuoteBody, gqlEscapeByte, readStringLoop.eq_def, decodeRune, encodeRune, runeError, escapeOut] at h1
   rw [← h1.1] at h2
   simp at h2
 
